@@ -48,7 +48,7 @@ mutual
     | .switch cases, outs, x, h => by simp only [addOutputs]; exact addS_mono customs slot cases outs x h
     | .custom id, outs, x, h => by simp only [addOutputs]; exact foldl_addKc_mono _ outs x h
     | .src, outs, x, h => by simp only [addOutputs]; exact addKc_mono outs slot x h
-    | .noOp, _, _, h | .trans, _, _, h | .layer _, _, _, h | .defaultLayer _, _, _, h
+    | .noOp, _, _, h | .trans, _, _, h | .layer _, _, _, h | .defaultLayer _, _, _, h | .bufKeyCodes _, _, _, h
     | .sequence _, _, _, h | .repeatableSequence _, _, _, h | .cancelSequences, _, _, h
     | .releaseState _, _, _, h | .oneShotIgnoreEventsTicks _, _, _, h | .repeat, _, _, h => by
       simp only [addOutputs]; exact h
@@ -105,7 +105,7 @@ mutual
     | .src, outs, x, h => by
       simp only [possibleOutputs, List.mem_singleton] at h; subst h
       simp only [addOutputs]; exact addKc_self outs _
-    | .noOp, _, _, h | .trans, _, _, h | .layer _, _, _, h | .defaultLayer _, _, _, h
+    | .noOp, _, _, h | .trans, _, _, h | .layer _, _, _, h | .defaultLayer _, _, _, h | .bufKeyCodes _, _, _, h
     | .sequence _, _, _, h | .repeatableSequence _, _, _, h | .cancelSequences, _, _, h
     | .releaseState _, _, _, h | .oneShotIgnoreEventsTicks _, _, _, h | .repeat, _, _, h => by
       simp [possibleOutputs] at h
